@@ -175,6 +175,10 @@ package xmpp
 //@     after: handlerCalls = handlerCalls + 1
 //@   callsite mellium.im/xmpp/internal/attr.Get#1
 //@     assert[C07] iqOk && (typ == "get" || typ == "set") && !rw.wroteResp
+// the automatic reply is addressed to the sender named by the request's own
+// (unqualified) from attribute
+//@   callsite mellium.im/xmpp/jid.Parse#1
+//@     assert[C07] exists k int :: 0 <= k && k < len(start.Attr) && unq(start.Attr[k], "from") && start.Attr[k].Value == arg0
 //@   callsite (mellium.im/xmpp/stanza.IQ).Wrap#1
 //@     assert[C07] arg0.ID == id && arg0.Type == "error"
 //@     after: autoReply = true
